@@ -206,6 +206,10 @@ class PlugInFeature(AncillaryFeature):
                 "a function).")
 
 
+#: identifiers (path, modification time, size) of imported plugin scripts
+_imported_scripts = {}
+
+
 def import_plugin_feature_script(
         plugin_path: str | pathlib.Path) -> dict:
     """Import the user-defined recipe and return the info dictionary
@@ -238,7 +242,16 @@ def import_plugin_feature_script(
         # insert the plugin directory to sys.path so we can import it
         sys.path.insert(-1, str(path.parent))
         sys.dont_write_bytecode = True
+        # If the script was imported before and has changed on disk since
+        # then (or another script with the same name is imported), make
+        # sure the current script is executed and not the cached module.
+        stat = path.stat()
+        script_id = (str(path.resolve()), stat.st_mtime_ns, stat.st_size)
+        if _imported_scripts.get(path.stem, script_id) != script_id:
+            sys.modules.pop(path.stem, None)
+            importlib.invalidate_caches()
         plugin = importlib.import_module(path.stem)
+        _imported_scripts[path.stem] = script_id
     except BaseException as e:
         raise PluginImportError(
             f"The plugin {plugin_path} could not be loaded!") from e
